@@ -884,6 +884,21 @@ def _bin_tile(np, D, x, fac, mode, g, viol, bump, probes):
                 viol("bin-avg", "bindown", note="mode=%r differs from mode='avg'" % syn)
         except Exception:
             pass
+    # the level is conserved in average mode for narrow float types too (the sum of a block of float16 samples
+    # may exceed what a float16 holds - the average does not)
+    if g.random() < 0.35:
+        lvl16 = (3000.0 + 8.0 * g.standard_normal((12, 12))).astype(np.float16)
+        for f16 in ((6, 6), (4, 6), (12, 12), (6, 4)):
+            try:
+                a16 = np.asarray(D.bindown(lvl16, list(f16), mode="avg")).astype(np.float64)
+            except Exception as e:
+                viol("raised", "bindown", exc=type(e).__name__, msg=str(e)[:120], note="float16 input")
+                break
+            want16 = _block_reduce(np, lvl16.astype(np.float64), list(f16), "avg")
+            if a16.shape != want16.shape or not bool(np.all(np.abs(a16 - want16) <= 4e-3 * np.abs(want16))):
+                viol("bin-avg", "bindown", note="float16 input: the level is not conserved", factor=list(f16))
+                break
+        bump(probes, "bin_float16_level_checked")
     bump(probes, "bin_tile_checked")
     if x.ndim == 3:
         bump(probes, "bin_nd_stack")
